@@ -365,7 +365,7 @@ def _direct(world: Dict[str, Any], modname: str, ref: Dict[str, Any]) -> bool:
     expr = ref['expr']
     if route in ('local', 'classscope'):
         return '.' not in expr
-    if route in ('from', 'from-as'):
+    if route in ('from', 'from-as', 'star'):
         org = truth['origin'].get(f'{modname}:{expr}')
         return bool(org) and org[0] == d['module'] and org[1] == d['name']
     if route == 'classscope-import-as-attr':
